@@ -30,8 +30,8 @@ const char* kBehaviours[] = { "orderly", "close-mid-request", "half-close", "rst
                               "silence", "partial-then-silence", "tmo", "tmoreply", "file", "file-abort", "async-abort", "never-close", "stream",
                               "silence-close-near-timeout", "silence-abort-near-timeout", "stall-beyond-timeout",
                               "abandon-at-once-close", "abandon-at-once-abort", "abandon-at-once-half-close",
-                              "tmo-then-close", "tmo-then-abort", "stall-resume-trickle" };
-constexpr int kNumBeh = 24;
+                              "tmo-then-close", "tmo-then-abort", "stall-resume-trickle", "request-then-abort-quickly", "async-close" };
+constexpr int kNumBeh = 26;
 
 Json gen(sim::Rng& rng, int tier)
 {
@@ -44,12 +44,26 @@ Json gen(sim::Rng& rng, int tier)
     int rounds = static_cast<int>(rng.range(1, tier ? 4 : 3));
     Json jr = Json::array();
     u64 tag = 100000 + rng.below(800000);
+    // swarm: some runs concentrate on one kind of coincidence
+    //  async-race: clients that leave at about the moment an application thread answers them
+    //  flush-race: one worker, streamed responses (whose flush() writes whatever is queued for any connection)
+    //              next to clients that reset their connection right behind a request
+    int mixk = static_cast<int>(rng.below(10));
+    std::string mix = mixk == 0 ? "async-race" : mixk == 1 ? "flush-race" : "";
+    static const char* kAsyncRace[] = { "async-abort", "async-abort", "async-close", "orderly" };
+    static const char* kFlushRace[] = { "stream", "stream", "request-then-abort-quickly", "request-then-abort-quickly", "rst-unread", "orderly" };
+    if (!mix.empty()) {
+        p["mix"] = mix;
+        p["mode"] = "http";
+        if (mix == "flush-race") p["workers"] = 1;
+    }
     for (int r = 0; r < rounds; ++r) {
         Json conns = Json::array();
-        int n = static_cast<int>(rng.range(1, tier ? 6 : 4));
+        int n = static_cast<int>(rng.range(mix.empty() ? 1 : 2, tier ? 6 : 4));
         for (int i = 0; i < n; ++i) {
             Json c = Json::object();
-            c["behaviour"] = kBehaviours[rng.below(kNumBeh)];
+            c["behaviour"] = mix == "async-race" ? kAsyncRace[rng.below(4)] : mix == "flush-race" ? kFlushRace[rng.below(6)] : kBehaviours[rng.below(kNumBeh)];
+            if (mix == "async-race") c["leave_at_us"] = static_cast<int>(std::max<i64>(0, p.num("app_delay_us", 0) + static_cast<i64>(rng.below(600)) - 300));
             c["tag"] = static_cast<long long>(++tag);
             c["requests"] = static_cast<int>(rng.range(1, 3));
             c["size"] = static_cast<long>(rng.chance(0.5) ? rng.below(2000) : 20000 + rng.below(200000));
@@ -223,6 +237,13 @@ void run(const Json& plan)
                 st.push_back(httpw::send_step(req("/size/" + std::to_string(b == "rst-pending" ? 300000 : std::max<long>(size, 1000)) + "/" + tag)));
                 st.push_back(httpw::step(Step::Pause, delay + 2000000));
                 st.push_back(httpw::step(Step::Abort));
+            } else if (b == "request-then-abort-quickly") {
+                // the reset lands while the worker is still busy with the batch of events that carried the request
+                // (its response queued, possibly flushed by another connection's handler)
+                st.push_back(httpw::step(Step::StopReading));
+                st.push_back(httpw::send_step(req("/size/" + std::to_string(std::max<long>(size, 1000)) + "/" + tag)));
+                st.push_back(httpw::step(Step::Pause, 1000 + (delay % 400000)));
+                st.push_back(httpw::step(Step::Abort));
             } else if (b == "silence") {
                 st.push_back(httpw::step(Step::AwaitClose, (std::max(hto, bto) + 2000) * 1000000LL));
                 st.push_back(httpw::step(Step::Close));
@@ -296,10 +317,10 @@ void run(const Json& plan)
                 st.push_back(httpw::send_step(req("/file/" + tag)));
                 st.push_back(httpw::step(Step::Pause, delay + 3000000));
                 st.push_back(httpw::step(Step::Abort));
-            } else if (b == "async-abort") {
+            } else if (b == "async-abort" || b == "async-close") {
                 st.push_back(httpw::send_step(req("/async/" + std::to_string(size) + "/" + tag)));
-                st.push_back(httpw::step(Step::Pause, delay / 10));
-                st.push_back(httpw::step(Step::Abort));
+                st.push_back(httpw::step(Step::Pause, c.has("leave_at_us") ? c.num("leave_at_us") * 1000 : delay / 10));
+                st.push_back(httpw::step(b == "async-abort" ? Step::Abort : Step::Close));
             } else if (b == "never-close") {
                 st.push_back(httpw::send_step(req("/never/" + tag)));
                 st.push_back(httpw::step(Step::Pause, delay));
